@@ -80,17 +80,18 @@ func spaces(thorough bool) []Space {
 	ctlH4 := []string{"r:1", "r:2", "r:3", "r:4", "c", "s:r", "s:w", "t", "b"}
 	// ordered so that the largest spaces run last (a deadline then caps only them)
 	return []Space{
+		{Name: "ampjit", Kind: "ampjit", Pays: []string{"A10r0g", "A11r0g", "A11r0b", "A11r+g", "A2sr0g", "A2sr-g"}, Amts: amts3, Exps: exps, Ctl: ctlR, Depth: 4},
 		{Name: "keysend", Kind: "keysend", Pays: []string{"Kr", "Kw", "Km", "L", "Mr0"}, Amts: amts5, Exps: exps, Ctl: ctlR, Depth: 5},
-		{Name: "zero", Kind: "zero", Pays: []string{"L", "Mr0", "Mr+", "Mr-", "Mw0"}, Amts: amts5, Exps: exps, Ctl: ctlR, Depth: 5},
-		{Name: "ampjit", Kind: "ampjit", Pays: []string{"A10r0g", "A11r0g", "A11r0b", "A11r+g", "A2sr0g", "A2sw0g"}, Amts: amts3, Exps: exps, Ctl: ctlR, Depth: 4},
-		{Name: "hold", Kind: "hold", Pays: []string{"L", "Mr0", "Mr+", "Mr-", "Mw0"}, Amts: amts5, Exps: exps, Ctl: ctlH, Depth: 5},
-		{Name: "regular", Kind: "regular", Pays: []string{"L", "Mr0", "Mr+", "Mr-", "Mw0", "Mw+"}, Amts: amts5, Exps: exps, Ctl: ctlR, Depth: 5},
-		{Name: "blinded", Kind: "blinded", Pays: []string{"L", "Pr0", "Pr+", "Pr-", "Pw0", "Mr0", "Mw0"}, Amts: amts5, Exps: exps, Ctl: ctlR, Depth: 5},
+		{Name: "zero", Kind: "zero", Pays: []string{"L", "Mr0", "Mr+", "Mr-", "Mw0"}, Amts: amts5, Exps: exps, Ctl: ctlR, Depth: 4},
+		{Name: "hold", Kind: "hold", Pays: []string{"L", "Mr0", "Mr+", "Mr-", "Mw0"}, Amts: amts5, Exps: exps, Ctl: ctlH, Depth: 4},
+		{Name: "regular", Kind: "regular", Pays: []string{"L", "Mr0", "Mr+", "Mr-", "Mw0", "Mw+"}, Amts: amts5, Exps: exps, Ctl: ctlR, Depth: 4},
+		{Name: "blinded", Kind: "blinded", Pays: []string{"L", "Pr0", "Pr+", "Pr-", "Pw0", "Mr0", "Mw0"}, Amts: amts5, Exps: exps, Ctl: ctlR, Depth: 4},
+		{Name: "amp", Kind: "amp", Pays: []string{"A10r0g", "A11r0g", "A11r0b", "A10r+g", "A11r+g", "A11w0g", "A2sr0g", "A2sr-g", "Mr0", "L"}, Amts: amts3, Exps: lo, Ctl: ctlR, Depth: 4},
 		// deeper, four recorded HTLCs, on the alphabet restricted to halves and wholes
+		{Name: "zero-deep", Kind: "zero", Pays: []string{"L", "Mr0", "Mr-"}, Amts: amts3, Exps: []string{"ok"}, Ctl: ctlR4, Depth: 6, Keys: 4},
 		{Name: "regular-deep", Kind: "regular", Pays: []string{"L", "Mr0", "Mr+"}, Amts: amts3, Exps: []string{"ok"}, Ctl: ctlR4, Depth: 6, Keys: 4},
 		{Name: "hold-deep", Kind: "hold", Pays: []string{"L", "Mr0", "Mr+"}, Amts: amts3, Exps: []string{"ok"}, Ctl: ctlH4, Depth: 6, Keys: 4},
 		{Name: "amp-deep", Kind: "amp", Pays: []string{"A10r0g", "A11r0g", "A11r0b", "A2sr0g"}, Amts: []int64{valueV / 2, valueV}, Exps: []string{"ok"}, Ctl: ctlR4, Depth: 6, Keys: 4},
-		{Name: "amp", Kind: "amp", Pays: []string{"A10r0g", "A11r0g", "A11r0b", "A10r+g", "A11r+g", "A11w0g", "A2sr0g", "A2sr-g", "Mr0", "L"}, Amts: amts5, Exps: exps, Ctl: ctlR, Depth: 4},
 	}
 }
 
